@@ -781,7 +781,29 @@ func (vm *vm) popTryFrame() {
 
 func (vm *vm) restoreStacks(iterLen, refLen uint32) (ex *Exception) {
 	// Restore other stacks
-	iterTail := vm.iterStack[iterLen:]
+	if iterTail := vm.iterStack[iterLen:]; len(iterTail) > 0 {
+		ex = vm.closeIters(iterTail, iterLen, refLen)
+	}
+	vm.iterStack = vm.iterStack[:iterLen]
+	refTail := vm.refStack[refLen:]
+	for i := range refTail {
+		refTail[i] = nil
+	}
+	vm.refStack = vm.refStack[:refLen]
+	return
+}
+
+// closeIters calls the return() methods of the iterators in iterTail (the part of the iterator stack above iterLen),
+// last one first. A return() method may be cut short by an uncatchable exception (interrupt, stack overflow) or a
+// foreign panic, which vm.try() re-panics: the remaining entries are discarded then, nothing above iterLen / refLen
+// may stay behind.
+func (vm *vm) closeIters(iterTail []iterStackItem, iterLen, refLen uint32) (ex *Exception) {
+	completed := false
+	defer func() {
+		if !completed {
+			vm.discardStacks(iterLen, refLen)
+		}
+	}()
 	for i := len(iterTail) - 1; i >= 0; i-- {
 		if iter := iterTail[i].iter; iter != nil {
 			ex1 := vm.try(func() {
@@ -793,12 +815,7 @@ func (vm *vm) restoreStacks(iterLen, refLen uint32) (ex *Exception) {
 		}
 		iterTail[i] = iterStackItem{}
 	}
-	vm.iterStack = vm.iterStack[:iterLen]
-	refTail := vm.refStack[refLen:]
-	for i := range refTail {
-		refTail[i] = nil
-	}
-	vm.refStack = vm.refStack[:refLen]
+	completed = true
 	return
 }
 
